@@ -349,7 +349,8 @@ def main():
   rep.assumptions += ["Keras model (re)construction from JSON is runtime behaviour: the comparison is on the JSON that model_quantize hands to "
                       "quantized_model_from_json (captured by the harness) and on names / output shapes / weights of the constructed model",
                       "recurrent, Bidirectional, BatchNormalization and folded layers are not generated (they do not build under the pinned Keras 3)"]
-  return rep.finish(vlib.TRUSTED_COMMON + ["model Convert/ModelQuantize.v is hand-written; tie = comparison of the rewritten layer configs on every generated (model, dictionary)"])
+  return rep.finish(vlib.TRUSTED_COMMON + ["translators tools/translate/{convertgen,relugen}.py regenerate coq/gen/{ConvertGen,ReluGen}.v (helpers and the ReLU-layer branch of model_quantize); Link/{ConvertLink,ReluLink}.v prove them equal to the model; the other branches of model_quantize are tied by correspondence",
+                                          "model Convert/ModelQuantize.v is hand-written; tie = comparison of the rewritten layer configs on every generated (model, dictionary)"])
 
 
 if __name__ == "__main__":
